@@ -292,13 +292,40 @@ func Shrink(c Case) Case {
 	if e == nil {
 		return c
 	}
+	// the shrunk case must keep the outcome and the first changed object of
+	// the original, and must not introduce additional non-finite values in it
+	target := c.Changed[0]
+	nonFinite := func(cs Case) int {
+		k := 0
+		for _, o := range cs.Objs {
+			if o.Name != target {
+				continue
+			}
+			for _, l := range [][]float64{o.Before, o.After} {
+				for _, x := range l {
+					if math.IsNaN(x) || math.IsInf(x, 0) {
+						k++
+					}
+				}
+			}
+		}
+		return k
+	}
+	nf0 := nonFinite(c)
 	try := func(s *Spec) bool {
 		raw, err := json.Marshal(s)
 		if err != nil {
 			return false
 		}
 		nc, err := Replay(raw)
-		if err != nil || len(nc.Changed) == 0 {
+		if err != nil || nc.Outcome != c.Outcome {
+			return false
+		}
+		keeps := false
+		for _, n := range nc.Changed {
+			keeps = keeps || n == target
+		}
+		if !keeps || nonFinite(nc) > nf0 {
 			return false
 		}
 		best = nc
